@@ -64,10 +64,6 @@ impl ValidationContext {
         if target.is_empty() || target == "->" {
             return Ok(());
         }
-        // Targets starting with '$' are internal compiler-generated
-        if target.starts_with('$') {
-            return Ok(());
-        }
         if self.function_names.contains(target) {
             return Err(CompilerError::invalid_source(format!(
                 "Function '{target}' can only be called as a function, not diverted to"
